@@ -345,7 +345,7 @@ func runC09(c *Ctx) {
 					continue // the final exit status
 				}
 				g, _ := Guarded(call.Block(), ab, pass, nil)
-				c.Check(g && len(pass) > 0, "R4", "fsck:rerun-tolerates-moved-object", p.InstrPos(ab), "a rename failing with ENOENT (object already moved by an interrupted run) does not abort the repair",
+				c.Check(g && nonVacuous(pass), "R4", "fsck:rerun-tolerates-moved-object", p.InstrPos(ab), "a rename failing with ENOENT (object already moved by an interrupted run) does not abort the repair",
 					"a re-run after an interrupted repair aborts at the first object that was already moved, so the remaining corrupt objects are never moved: the state does not converge to that of an uninterrupted run")
 			}
 		}
